@@ -549,7 +549,7 @@ evhttp_is_connection_close(int flags, struct evkeyvalq* headers)
 static int
 evhttp_is_request_connection_close(struct evhttp_request *req)
 {
-	if (req->type == EVHTTP_REQ_CONNECT)
+	if (req->type == EVHTTP_REQ_CONNECT && req->response_code / 100 == 2)
 		return 0;
 
 	return
